@@ -1,5 +1,6 @@
 import Pathrs.Proofs.Props.C14
 import Pathrs.Proofs.RmAll
+import Pathrs.Proofs.RmAllRace
 
 /-!
 # C13 — `remove_all` removes exactly the named subtree and never follows links
@@ -27,8 +28,15 @@ import Pathrs.Proofs.RmAll
   100 000); an entry that does not exist is success with nothing changed.  The error-message reads the wrappers make
   on the way (`EISDIR`, `ENOTEMPTY` are part of the normal course) are shown to leave the state unchanged.
 
-That racing callers *all* succeed (progress under concurrent removal) and the frame condition on the real
-filesystem are decided by the racing-threads suite and the effect oracle of the check.
+* `C13_converges` (rely/guarantee, `Proofs/RmAllRace.lean`): the same tree, but now *the environment moves
+  before every system call of the program*: it may remove entries anywhere (`Removes` — what any number of other
+  `remove_all` callers or an `rm -rf` do; directory streams deliver names that may be gone by then), never add one.
+  For every such history: the call **succeeds**, the named entry is absent afterwards, the whole history only removed
+  entries (the guarantee: so N callers compose), and everything the call itself removed is the named entry or lies
+  below it in the initial tree.  So racing `remove_all` callers all report success and leave the path absent.
+
+The frame condition on the real filesystem (and a real kernel's directory streams) are decided by the effect
+oracle and the racing-threads suite of the check.
 -/
 
 open K Runs
@@ -343,4 +351,16 @@ theorem C13_absent (s : RFS) (dir : Fd) (hdir : 0 ≤ dir) (name : Bytes) (hname
     (hc : s.child dir name = none) (fuel : Nat) :
     ∃ s', exec s (RemoveAll.removeAll (fuel + 1) dir name) = (s', .ok ()) ∧ s'.entries = s.entries ∧ s'.isDir = s.isDir :=
   removeAll_absent s dir hdir name hname hc fuel
+
+/-! ### convergence while others remove (rely/guarantee) -/
+
+open RmAll RmAllRace in
+/-- **Racing removers converge** -/
+theorem C13_converges (s s' : RFS) (rank : Fd → Nat) (hw : WF s rank) (dir : Fd) (hdir : 0 ≤ dir) (name : Bytes)
+    (hname : RmAll.ProperName name) (fuel : Nat) (hfuel : rank dir + 3 ≤ fuel) (t : Hist) (r : Except Err Unit)
+    (hr : RunsT (RemoveAll.removeAll fuel dir name) t r) (hv : ValidR s t s') :
+    r = .ok () ∧ s'.child dir name = none ∧ OnlyRemoved s s' ∧
+      ∀ d n, (d, n) ∈ ownRemovals t →
+        (d = dir ∧ n = name) ∨ (∃ c, s.child dir name = some c ∧ Below s c d) :=
+  removeAll_converges s s' rank hw dir hdir name hname fuel hfuel t r hr hv
 
